@@ -14,6 +14,10 @@ Helper lemmas live in Proofs/Fit.lean.
 import Model.Fit
 import Model.Slim
 import Proofs.Fit
+import Proofs.FitLogDet
+import Mathlib.Tactic.IntervalCases
+import Mathlib.Tactic.FinCases
+import Mathlib.Tactic.NormNum
 import Mathlib.Algebra.Order.Field.Rat
 
 open Model Model.Impl.Fit Model.FitProofs
@@ -274,6 +278,82 @@ theorem c_unregularized_inversion_gives_likelihood [Field α] [BEq α] (log : α
     fitLogLikelihood, logLikelihood]
   ring
 
+/-! ## (c') the log-determinant terms are `log det` — over ℝ, factorisations under their contracts -/
+
+/-- (c5) `log_det_curvature_reg_matrix_term` (and the Cholesky fallback of the regularization term)
+    evaluates `2.0 * np.sum(np.log(np.diag(np.linalg.cholesky(A))))`.  Whenever the factor `L = chol A`
+    meets numpy's contract — `n×n`, zero above the diagonal, positive diagonal, `L·Lᵀ = A` — that value
+    is `log det A` (and `det A > 0`), with `Real.log` and Mathlib's determinant of the `n×n` matrix
+    of `A`'s entries. -/
+theorem c_log_det_via_cholesky (n : Nat) (chol : List (List ℝ) → List (List ℝ)) (A : List (List ℝ))
+    (hlen : (chol A).length = n)
+    (hlower : ∀ i j, i < n → j < n → i < j → ((chol A).getD i []).getD j 0 = 0)
+    (hpos : ∀ i, i < n → 0 < ((chol A).getD i []).getD i 0)
+    (hmul : ∀ i j, i < n → j < n →
+      ((List.range n).map fun k =>
+        ((chol A).getD i []).getD k 0 * ((chol A).getD j []).getD k 0).sum = (A.getD i []).getD j 0) :
+    logDetViaCholesky Real.log chol A
+      = Real.log (Matrix.det (Matrix.of fun (i j : Fin n) => (A.getD i []).getD j 0))
+    ∧ 0 < Matrix.det (Matrix.of fun (i j : Fin n) => (A.getD i []).getD j 0) :=
+  logDetViaCholesky_eq n chol A ⟨hlen, hlower, hpos, hmul⟩
+
+/-- (c6) `log_det_regularization_matrix_term` on its SuperLU path evaluates
+    `Re( Σ log(diag L) + Σ log(diag U) )` with complex logarithms, i.e. `Σ log|l_ii| + Σ log|u_ii|`.
+    Whenever `(L, U) = lu A` meets the contract the code relies on — `L` lower-, `U` upper-triangular,
+    `P_r·A·P_c = L·U` for some row / column permutations — and `A` is non-singular, that value is
+    `log |det A|`; for `det A > 0` (a positive-definite regularization matrix) it is `log det A`. -/
+theorem c_log_det_via_lu (n : Nat) (lu : List (List ℝ) → List (List ℝ) × List (List ℝ))
+    (A : List (List ℝ)) (σ τ : Equiv.Perm (Fin n))
+    (hlenL : (lu A).1.length = n) (hlenU : (lu A).2.length = n)
+    (hlowerL : ∀ i j, i < n → j < n → i < j → (((lu A).1).getD i []).getD j 0 = 0)
+    (hupperU : ∀ i j, i < n → j < n → j < i → (((lu A).2).getD i []).getD j 0 = 0)
+    (hmul : ∀ i j : Fin n,
+      ((List.range n).map fun k =>
+        (((lu A).1).getD i []).getD k 0 * (((lu A).2).getD k []).getD j 0).sum
+        = (A.getD (σ i) []).getD (τ j) 0)
+    (hdet : Matrix.det (Matrix.of fun (i j : Fin n) => (A.getD i []).getD j 0) ≠ 0) :
+    logDetViaLU Real.log (fun x => |x|) lu A
+      = Real.log |Matrix.det (Matrix.of fun (i j : Fin n) => (A.getD i []).getD j 0)|
+    ∧ (0 < Matrix.det (Matrix.of fun (i j : Fin n) => (A.getD i []).getD j 0) →
+        logDetViaLU Real.log (fun x => |x|) lu A
+          = Real.log (Matrix.det (Matrix.of fun (i j : Fin n) => (A.getD i []).getD j 0))) := by
+  have h := logDetViaLU_eq n lu A σ τ ⟨hlenL, hlenU, hlowerL, hupperU, hmul⟩ hdet
+  refine ⟨h, fun hp => ?_⟩
+  rw [h]
+  congr 1
+  exact abs_of_pos hp
+
+/-- (c7) the evidence with the mathematical determinants.  Over ℝ with `Real.log`, for an inversion
+    with at least one regularized object whose three terms are computed as the code computes them
+    (Cholesky of the reduced `F + H`, SuperLU of the reduced `H`), under the factorisation contracts and
+    `det H_red > 0`:
+    `log_evidence = -(χ² + sᵀ H s + log det (F+H)_red − log det H_red + noise normalization) / 2`,
+    where the reduced matrices are those characterised in (d4)/(d5). -/
+theorem c_log_evidence_with_determinants [BEq ℝ] (twoPi : ℝ) (f : FitInput ℝ)
+    (chol : List (List ℝ) → List (List ℝ)) (lu : List (List ℝ) → List (List ℝ) × List (List ℝ))
+    (F : List (List ℝ)) (s : List ℝ) (objs : List (LinObj ℝ))
+    (hwf : ObjsWF objs) (hs : s.length = totalParams objs) (hhas : hasRegularization objs = true)
+    (n₁ n₂ : Nat) (σ τ : Equiv.Perm (Fin n₂))
+    (hchol : CholeskyContract n₁ (curvatureRegMatrixReduced F objs)
+      (chol (curvatureRegMatrixReduced F objs)))
+    (hlu : LUContract n₂ (regularizationMatrixReduced objs) (lu (regularizationMatrixReduced objs)).1
+      (lu (regularizationMatrixReduced objs)).2 σ τ)
+    (hdetH : 0 < (toMatrix n₂ (regularizationMatrixReduced objs)).det) :
+    fitLogEvidence Real.log twoPi f
+        (some (invTermsViaFactorisations Real.log (fun x => |x|) chol lu F s objs))
+      = some (-(fitChiSquared f
+                + dot s (matVec (regularizationMatrix objs) s)
+                + Real.log (toMatrix n₁ (curvatureRegMatrixReduced F objs)).det
+                - Real.log (toMatrix n₂ (regularizationMatrixReduced objs)).det
+                + fitNoiseNormalization Real.log twoPi f) / 2) := by
+  have h1 := (logDetViaCholesky_eq n₁ chol _ hchol).1
+  have h2 := logDetViaLU_eq n₂ lu _ σ τ hlu (ne_of_gt hdetH)
+  rw [abs_of_pos hdetH] at h2
+  have h3 := regularizationTerm_eq_full objs hwf s hs hhas
+  rw [(c_log_evidence Real.log twoPi f _).1]
+  simp only [invTermsViaFactorisations, logDetCurvatureRegTerm, logDetRegularizationTerm, hhas,
+    Bool.not_true, Bool.false_eq_true, if_false, h1, h2, h3]
+
 /-! ## (d) the evidence terms live on the regularized parameters only -/
 
 /-- (d1) `no_regularization_index_list` is, object by object in order, the block of parameter indices
@@ -403,6 +483,26 @@ example :=
         rcases ho with rfl | rfl | rfl <;> simp at hm <;> subst hm <;> simp)
     [[5, 1, 0, 0], [1, 5, 1, 0], [0, 1, 4, 1], [0, 0, 1, 6]] [1, 2, 10, 3]
     rfl (by intro r hr; simp at hr; rcases hr with rfl | rfl | rfl | rfl <;> rfl) rfl rfl rfl
+
+/-- the factorisation contracts of (c5)–(c7) are satisfiable: `[[4,2],[2,5]] = L·Lᵀ` with
+    `L = [[2,0],[1,2]]`, and `= L'·U'` with `L' = [[1,0],[1/2,1]]`, `U' = [[4,2],[0,4]]`. -/
+example : CholeskyContract 2 [[4, 2], [2, 5]] [[2, 0], [1, 2]] := by
+  refine ⟨rfl, ?_, ?_, ?_⟩
+  · intro i j hi hj hij
+    (interval_cases i <;> interval_cases j); simp_all [get2]
+  · intro i hi
+    interval_cases i <;> norm_num [get2]
+  · intro i j hi hj
+    interval_cases i <;> interval_cases j <;> norm_num [get2, List.range_succ]
+
+example : LUContract 2 [[4, 2], [2, 5]] [[1, 0], [1 / 2, 1]] [[4, 2], [0, 4]] 1 1 := by
+  refine ⟨rfl, rfl, ?_, ?_, ?_⟩
+  · intro i j hi hj hij
+    (interval_cases i <;> interval_cases j); simp_all [get2]
+  · intro i j hi hj hij
+    (interval_cases i <;> interval_cases j); simp_all [get2]
+  · intro i j
+    fin_cases i <;> fin_cases j <;> norm_num [get2, List.range_succ]
 
 /-- a partially regularized list (2 regularized parameters, then 1 unregularized, then 1 regularized):
     index list, block-diagonal `H`, reduced matrices and the regularization term. -/
